@@ -585,7 +585,12 @@ func c14FS(c *ctx, r Rng, mode string) {
 	cfg.MaxFilesToMergePerOperation = 6
 	cfg.MaxRowGroupRows = 100
 	// writer engine: plain scan for merges; query engine: gated scan
-	weng, err := bs.NewBloomSearchEngine(cfg, g, g)
+	ffs := &failingFS{FileSystemDataStore: fs}
+	var wdata bs.DataStore = g
+	if mode == "failed-merge" {
+		wdata = &gatedFailing{gatedFS: g, f: ffs}
+	}
+	weng, err := bs.NewBloomSearchEngine(cfg, g, wdata)
 	if err != nil {
 		fatal("engine: %v", err)
 	}
@@ -664,6 +669,22 @@ func c14FS(c *ctx, r Rng, mode string) {
 		desc = append(desc, "query while the merge is parked between publishing its output and Update")
 		close(g.parkUpd.release)
 		<-mdone
+	case "failed-merge":
+		// two merge groups (partitions a and b); the second group's output fails at a write: Merge returns an
+		// error, and afterwards every row must still be returned exactly once (the first group's output, already
+		// published when the failure hits, must not stay next to its sources)
+		flush("b")
+		flush("b", "b")
+		for i := range acked {
+			before[i] = true
+		}
+		ffs.arm(2, 1+r.IntN(4))
+		_, merr := weng.Merge(context.Background())
+		ffs.disarm()
+		desc = append(desc, fmt.Sprintf("merge with the second output failing (err=%v)", merr))
+		g.ev("qb")
+		g.ev("qs")
+		out = RunQuery(qeng, &bs.Query{})
 	case "flush-only":
 		g.parkYield = newParker("yield", 1+r.IntN(3))
 		g.ev("qb")
@@ -681,13 +702,13 @@ func c14FS(c *ctx, r Rng, mode string) {
 	}
 	replay := map[string]any{"store": "FileSystemDataStore as MetaStore", "mode": mode, "history": desc, "returned": sortedIDs(out.Rows), "err": fmt.Sprint(out.Err)}
 	key := ""
-	if mode != "flush-only" {
+	if mode == "omission" || mode == "duplication" {
 		key = "fs-metastore-scan-not-atomic"
 	}
 	c.r.Case(true, "fs:"+mode+fmt.Sprint(desc))
 	c.r.Hit("fs." + mode)
 	held := resultMonitor(c, "FileSystemDataStore as MetaStore ("+mode+")", out, before, sent, key, replay)
-	if mode != "flush-only" && held {
+	if (mode == "omission" || mode == "duplication") && held {
 		c.r.Note("fs %s schedule did not reproduce the known finding this run (returned %v, err %v)", mode, sortedIDs(out.Rows), out.Err)
 	}
 	// replay on the Lean directory discipline
@@ -727,7 +748,26 @@ func runC14(c *ctx) {
 	}
 	c14FS(c, r, "omission")
 	c14FS(c, r, "duplication")
+	for i := 0; i < 3*c.scale; i++ {
+		c14FS(c, r, "failed-merge")
+	}
 	for i := 0; i < 5*c.scale; i++ {
 		c14FS(c, r, "flush-only")
 	}
+}
+
+// gatedFailing is the writer engine's DataStore for the failed-merge schedule: gatedFS's event log plus
+// failingFS's write faults.
+type gatedFailing struct {
+	*gatedFS
+	f *failingFS
+}
+
+func (x *gatedFailing) CreateFile(ctx context.Context) (io.WriteCloser, []byte, error) {
+	w, p, err := x.gatedFS.CreateFile(ctx)
+	if err != nil {
+		return w, p, err
+	}
+	x.f.created++
+	return &failingWriter{WriteCloser: w, fs: x.f, idx: x.f.created}, p, nil
 }
